@@ -105,7 +105,8 @@ func runC16(c *eng.Ctx, tier string) {
 			virtual := lks.Holds(hs, keyStore) && !lks.HoldsReal(hs, keyStore)
 			// (the lookup routine, or a helper only it calls)
 			inLookup := where == lk || eng.Outer(eng.HelperRoot(where, func(x *ssa.Function) bool { return eng.Outer(x) == lk })) == lk
-			okk := prepub[where] || virtual || where == poll || inLookup
+			inPoll := where == poll || eng.HelperRoot(where, func(x *ssa.Function) bool { return x == poll }) == poll
+			okk := prepub[where] || virtual || inPoll || inLookup
 			c.Check(okk, "R-C16-1", f, in.Pos(), "service request "+eng.InstrStr(in), "the store contacts the service only during construction, in the poll, and in the gated lookup routine", "request issued in "+eng.FName(f))
 		})
 	}
